@@ -440,7 +440,7 @@ struct DomExec {
     auto a = resolve(static_cast<N&>(d), s.m, op.S(0));
     auto b = resolve(static_cast<M&>(e), o.m, op.S(1));
     const N& na = *a.n; const M& nb = *b.n;
-    if (a.m->max_object_size() > 3000 && b.m->max_object_size() > 3000) return false;   // operator== is quadratic in the member count without a map: minutes for 60000+ members
+    if (a.m->max_object_size() > 3000 || b.m->max_object_size() > 3000) return false;   // (also the reflexive checks) operator== is quadratic in the member count without a map: minutes for 60000+ members
     bool r1 = (na == nb), r2 = (nb == na), r3 = (na != nb), r4 = (na == na), r5 = (nb == nb);
     ob = std::string("eq") + (r1 ? '1' : '0');
     if (!(chk & CHK_EQ)) return true;
